@@ -84,7 +84,7 @@ def build_history(rng, pv, codec, length, unknown_ids, unhandled):
 
 
 def conversation(run, pv, rng, length, threshold, abrupt, label,
-                 force_play_compress=False):
+                 force_play_compress=False, silent_gap=0):
     from minecraft.networking.connection import ConnectionContext
     from minecraft.networking.packets import Packet, clientbound
     codec = codec_for(pv)
@@ -178,6 +178,13 @@ def conversation(run, pv, rng, length, threshold, abrupt, label,
                     time.sleep(0.002)
         did, dp = codec.encode('play_disconnect', {'reason': '{"text":"bye"}'})
         buf += io.encode_frame(did, dp)
+        if silent_gap:
+            # a slow link: the stream pauses *inside* a frame for a long time
+            # (the client is then blocked in a read, not in select)
+            cut = len(buf) - 3
+            io.send_raw(bytes(buf[:cut]))
+            time.sleep(silent_gap)
+            buf = buf[cut:]
         io.send_raw(bytes(buf))
         if abrupt == 'reset':
             io.close(abrupt=True)       # RST: the next client write fails
@@ -219,8 +226,11 @@ def conversation(run, pv, rng, length, threshold, abrupt, label,
             rec.exits = 0
             run.count('conversations.second_session')
         conn.connect()
-        done = pc.wait_idle(conn, 20.0)
+        done = pc.wait_idle(conn, 20.0 + silent_gap)
         server.join(12.0)
+        if silent_gap:
+            run.count('conversations.with_long_silent_gap')
+            w['silent_gap_inside_frame_s'] = silent_gap
         if not done:
             return 'inconclusive', 'client threads still alive after 20s: ' \
                 + pc.dump_threads()
@@ -256,6 +266,15 @@ def conversation(run, pv, rng, length, threshold, abrupt, label,
                           codec.packet_id('play_disconnect')))
         got_disconnect = bool(play_seen) and \
             play_seen[-1][0] == 'DisconnectPacket'
+        if abrupt == 'reset' and not got_disconnect and not getattr(
+                server.connections[-1], 'all_delivered_before_reset', True):
+            # the reset overtook data the client's kernel had not taken yet
+            # (full window): the disconnect packet was never delivered
+            run.count('abrupt.reset_discarded_undelivered_data')
+            if play_seen != want_seen[:len(play_seen)]:
+                run.violation('play/delivered-sequence', 'packets delivered '
+                              'are not a prefix of the history sent', w)
+            return 'done', None
         if abrupt == 'reset' and not got_disconnect:
             # everything, including the disconnect packet, was delivered to
             # the client's socket before the reset; bytes already received stay
@@ -343,6 +362,83 @@ def conversation(run, pv, rng, length, threshold, abrupt, label,
             pass
 
 
+def reset_mid_batch(run, pv, rng, idx):
+    """Controlled schedule for the kick-and-reset fault: the server's reset
+    arrives *between two echo writes of one batch*, with the (already
+    delivered) disconnect packet further than one read batch away."""
+    import threading
+    from minecraft.networking.packets import serverbound
+    codec = codec_for(pv)
+    n_ka = rng.randrange(25, 45)
+    k = rng.randrange(5, min(n_ka, 40) - 2)      # echoes that get through
+    n_fill = rng.randrange(60, 140) - n_ka
+    closed = threading.Event()
+    state = {'echoes': 0}
+
+    def handler(io):
+        if scripts.read_handshake(io) is None:
+            return
+        scripts.login_offline(io, pv, None, codec)
+        buf = bytearray()
+        for i in range(n_ka):
+            buf += io.encode_frame(*codec.encode('cb_keep_alive',
+                                                 {'id': 100 + i}))
+        for i in range(n_fill):
+            buf += io.encode_frame(0x7E, b'filler')
+        buf += io.encode_frame(*codec.encode('play_disconnect',
+                                             {'reason': '"kick"'}))
+        io.send_raw(bytes(buf))
+        while state['echoes'] < k:
+            if io.recv_frame(8.0) is None:
+                break
+            state['echoes'] += 1
+        io.close(abrupt=True)
+        closed.set()
+    server = mcserver.Server(handler)
+    rec = pc.Recorder()
+    w = {'pv': pv, 'directed': 'reset-mid-batch', 'keep_alives': n_ka,
+         'echoes_before_reset': k, 'packets_before_disconnect': n_ka + n_fill}
+    conn = None
+    try:
+        conn = pc.make_connection(server.port, rec, allowed_versions={pv})
+        seen = []
+
+        def hold(packet):
+            seen.append(1)
+            if len(seen) == k:
+                closed.wait(8.0)
+                time.sleep(0.03)              # let the RST arrive
+        conn.register_packet_listener(hold, serverbound.play.KeepAlivePacket,
+                                      outgoing=True)
+        conn.connect()
+        if not pc.wait_idle(conn, 20.0):
+            return 'inconclusive', 'threads alive: ' + pc.dump_threads()
+        server.join(10.0)
+        if [e for e in server.errors if e[1] == 'script']:
+            return 'inconclusive', 'server script: %r' % (server.errors[:1],)
+        if not closed.is_set() or len(seen) < k:
+            return 'inconclusive', 'the reset point was never reached'
+        run.count('directed.reset_mid_batch')
+        got_disconnect = any(type(p).__name__ == 'DisconnectPacket'
+                             for p in rec.packets)
+        if not got_disconnect or rec.exceptions:
+            run.violation('play/reset-close-loses-disconnect', 'the peer reset'
+                          ' the connection after sending a disconnect packet; '
+                          'the client reported an error instead of honouring '
+                          'the packet it had already received', dict(
+                              w, exc=repr(rec.exceptions[:1]),
+                              delivered=len(rec.packets)))
+        elif rec.exits != 1:
+            run.violation('play/exit-callback-count/other', 'exit callback ran'
+                          ' %d times after a server disconnect' % rec.exits, w)
+        return 'done', w
+    finally:
+        closed.set()
+        server.stop()
+        if conn is not None:
+            pc.safe_disconnect(conn)
+
+
 def run(run):
     import minecraft
     thorough = run.tier == 'thorough'
@@ -382,11 +478,16 @@ def run(run):
         for _ in range(16):
             plan.append((rng.choice(versions), rng.choice((3, 10, 40)), True))
     for _ in range(300 if thorough else 16):
-        plan.append((rng.choice(versions), rng.choice((3, 30, 55, 70, 90)),
-                     'reset'))
+        plan.append((rng.choice(versions),
+                     rng.choice((3, 30, 55, 70, 90, 150, 400)), 'reset'))
+    if thorough:
+        # (wall-clock cost = the gap; they run in different shards)
+        plan[3:3] = [(340, 5, False, False, 11)]
+        plan[20:20] = [(757, 5, False, False, 31)]
     for i, entry in enumerate(plan):
         pv, length, abrupt = entry[:3]
-        force_pc = len(entry) > 3
+        force_pc = len(entry) > 3 and entry[3]
+        gap = entry[4] if len(entry) > 4 else 0
         if not run.mine(i):
             continue
         threshold = rng.choice((None, 0, 64)) if pv != 47 else \
@@ -394,7 +495,7 @@ def run(run):
         outcome = None
         for attempt in range(3):
             outcome, info = conversation(run, pv, rng, length, threshold,
-                                         abrupt, i, force_pc)
+                                         abrupt, i, force_pc, gap)
             if outcome == 'done':
                 break
         run.case((pv, length, threshold, abrupt, i))
@@ -404,7 +505,21 @@ def run(run):
                                      % (i, pv, info))
         elif info and len(run.samples) < 3:
             run.sample(info)
+    for i in range(60 if thorough else 8):
+        if not run.mine(i):
+            continue
+        pv = rng.choice((47, 340, 578, 757))
+        for attempt in range(3):
+            outcome, info = reset_mid_batch(run, pv, rng, i)
+            if outcome == 'done':
+                break
+        run.case(('reset-mid-batch', i))
+        if outcome != 'done':
+            run.inconclusive_because('reset-mid-batch %d: %s' % (i, info))
+    run.require('directed.reset_mid_batch', 2)
     run.require('conversations', 20)
     run.require('echoes_seen', 50)
     run.require('versions', 30)
     run.require('conversations.play_state_compression', 2)
+    if thorough:
+        run.require('conversations.with_long_silent_gap', 2)
